@@ -36,7 +36,7 @@ def run(tier):
     from wrapplan import WrapPlan
     return multiprop.run("C08", tier, [
         ("op-layer (kani)", lambda: kaniprop.run("C08", tier, PLAN, ASSUMPTIONS)),
-        ("wrapper-layer (mirsym)", lambda: mirprop.run("C08", tier, WrapPlan("compio-fs", ["compio-driver/io-uring"]), WRAP_ASSUMPTIONS)),
+        ("wrapper-layer (mirsym)", lambda: mirprop.run("C08", tier, WrapPlan("compio-fs", ["compio-driver/io-uring"], exclude=r"::close$"), WRAP_ASSUMPTIONS)),
     ])
 
 
